@@ -216,6 +216,26 @@ theorem C16_crash_inside_file_of_merge (opt0 : Opts) (ops : List Op) (hok : OpsO
     exact ⟨c0, fun key => by rw [c1 key, a1 key], by rw [c2, a2], fun st en => by rw [c3 st en, a3 st en],
       fun pre mt => by rw [c4 pre mt, a4 pre mt]⟩
 
+/-! ### finding D-MERGE-ZPOS: a rank-based removal outlives the insertion it removed -/
+
+/-- `ZAdd a` (score 2), `ZAdd b` (score 1), `ZPopMax` — one record per 60-byte segment -/
+def zposState : State :=
+  (commit (commit (commit (openDB { seg := 60 } []).1
+    [{ (mkRec [98] [97, 124, 50] [1] flagZAdd dsZSet 0 0 2) with txid := 1 }]).1
+    [{ (mkRec [98] [98, 124, 49] [1] flagZAdd dsZSet 0 0 1) with txid := 2 }]).1
+    [{ (mkRec [98] [32] [] flagZPopMax dsZSet) with txid := 3 }]).1
+
+/-- **Witness of D-MERGE-ZPOS (the property is false for sorted sets at crash points of Merge).** After the three
+commits the sorted set holds `b` alone. Merge's first step selects nothing from file 0 (`ZAdd a`: `a` is no longer
+a member) and removes the file; at that crash point the directory holds `ZAdd b` and `ZPopMax`, and `Open` pops
+`b`: the set is empty. Implementation and model agree (`corpus/D-MERGE-ZPOS.ops`). -/
+theorem C16_witness_zpos :
+    zposState.files.map (·.fid) = [0, 1, 2] ∧
+    (zposState.zsets.map fun p => (p.1, p.2.map (·.key))) = [([98], [[98]])] ∧
+    (zposState.files.head?.map fun f => mergeSelect zposState f 0) = some (.ok []) ∧
+    ((openDB { seg := 60 } (zposState.files.filter (·.fid != 0))).1.zsets.map fun p => (p.1, p.2.map (·.key))) = [([98], [])] := by
+  decide +kernel
+
 /-- **regenerated tie.** the order of the steps of `Merge` for one file — scan, select, rewrite transaction, remove — which the crash-point theorems above quantify over, is read off the source on this run (`NutsProofs.Facts.expectedMergeStmts`). -/
 theorem C16_merge_statements_regenerated : NutsGen.F.mergeStmts = NutsProofs.Facts.expectedMergeStmts :=
   NutsProofs.Facts.merge_stmts_ok
